@@ -83,6 +83,59 @@ theorem endBlock_keeps_powerFits (s : State) (h : Nat) (s' : State) (he : endBlo
   have hr := endBlock_rel slashing_code_facts s h s' he
   exact powerFits_of_recs s s' h hr.core.p hr.recs hf
 
+/-! ## app level: the module manager's block pipeline -/
+
+/-- obligation over the regenerated app wiring: every PreBlock / BeginBlock / EndBlock that an fx-core AppModule declares (or has
+promoted from an embedded dependency module) is of a classified shape — a new begin/end-blocker in x/erc20, x/migrate, x/evm, x/gov,
+x/staking or a chain module, or a changed body, fails here -/
+theorem app_blockers_covered : fxAppBlockers.all (fun b => (blockerTreatment b).isSome) = true := by decide
+
+/-- **the eight chain modules run ONE end-blocker**: exactly eth, bsc, polygon, avalanche, arbitrum, optimism, layer2 and tron declare
+an `EndBlock` whose body is `am.keeper.EndBlocker(ctx); return nil` on a `crosschainkeeper.Keeper` (no wrapper keeper, no extra step,
+no returned error) — so `endBlock_total…` below speak about each of them; each is in the module manager's end-blocker order, and no
+fx-core module other than these and gov declares an end-blocker at all -/
+theorem crosschain_end_blockers_uniform :
+    crosschainEndBlockModules = ["arbitrum", "avalanche", "bsc", "eth", "layer2", "optimism", "polygon", "tron"] ∧
+    crosschainEndBlockModules.all (fun m => orderEndBlockers.contains m) = true ∧
+    ((fxAppBlockers.filter (fun b => b.declared && b.phase == "end")).map (·.module)).all
+      (fun m => crosschainEndBlockModules.contains m || m == "gov") = true := by decide
+
+/-- every blocker an fx-core module declares is actually scheduled: its module is in the order list of its phase (a declared
+blocker that is not in the list would make `SetOrder…` panic at start-up), gov ends before staking and before the chain modules -/
+theorem declared_blockers_are_ordered :
+    (fxAppBlockers.filter (·.declared)).all (fun b => (orderOf b.phase).contains b.module) = true ∧
+    orderPreBlockers = ["upgrade"] ∧
+    (orderEndBlockers.takeWhile (· != "staking")).contains "gov" = true := by decide
+
+/-- the fx-core modules without any begin/end-blocker of their own (x/erc20, x/migrate) really have none, and the only fx-core
+begin-blocker is x/evm's, whose single error site is the cached block config read -/
+theorem fx_begin_blockers :
+    (fxAppBlockers.filter (fun b => b.module == "erc20" || b.module == "migrate")) = [] ∧
+    (fxAppBlockers.filter (fun b => b.declared && b.phase == "begin")).map (·.module) = ["evm"] ∧
+    (fxAppBlockers.filter (fun b => b.declared && b.phase == "pre")) = [] ∧
+    evmBeginBlockSites = evmBeginAccounted := by decide
+
+/-- … hence, for each of the eight chain modules, the end-blocker completes in every state whose online power fits `uint64`
+(the statement is `endBlock_total_online` — the point is that `m` ranges over the REGENERATED list of modules) -/
+theorem every_chain_module_endblock_total (m : String) (_hm : m ∈ crosschainEndBlockModules) (s : State) (h : Nat)
+    (hf : OnlinePowerFits s) : ∃ s', endBlock s h = .ok s' :=
+  FxVerif.Proofs.C13.endBlock_total_online slashing_code_facts refresh_code_facts s h hf
+
+example : "tron" ∈ crosschainEndBlockModules ∧ "bsc" ∈ crosschainEndBlockModules := by decide
+
+/-! ## reachability over the widened alphabet
+
+`Op.event` is the effect of the C01 / C05 alphabets (an external event reaches its quorum and is executed: batch executed, earlier
+batches cancelled, batches / bridge calls timed out, bridge-call result, oracle set observed) on the state the end-blocker reads; which
+objects disappear is the environment's choice.  `endBlock_total_reachable_params` / `block_never_panics_reachable` quantify over op
+lists that contain it. -/
+
+/-- a history with real traffic: an aged, unconfirmed batch and bridge call are removed by an external event before the window
+elapses for the next ones; the end-blocker completes after every prefix -/
+example : ((run (init ⟨100, 10, 8 * 10 ^ 17, 2, 10, 100, 10 ^ 17, 2⟩ [(0, 5000)])
+    [.gov [0], .bond 0 0 0 0 100, .mkcall, .mkbatch, .block 5, .event [1] [1] [1] (some none), .block 5, .mkbatch, .block 5, .block 5, .block 5]).oracles.map
+      (fun p => (p.2.online, p.2.slashTimes))) = [(false, 1)] := by decide
+
 /-! ## gov half: the proposal-tally path
 
 `x/gov/abci.go: EndBlocker` returns whatever `Keeper.Tally` returns; an error or a panic there halts the chain.  The tally
